@@ -60,8 +60,9 @@ def str_push(sv, c):
         if sv.len < len(ch): ch[sv.len] = c
         else: ch.append(c)
     else:
-        ch.append(0)
-        for k in range(len(ch)): ch[k] = zite(sv.len == k, c, ch[k])
+        lo, hi = int_bounds(sv.len); lo = max(lo, 0); hi = min(hi, len(ch))
+        ch = ch[:hi]; ch.append(0)
+        for k in range(lo, len(ch)): ch[k] = zite(sv.len == k, c, ch[k])
     return S(sv.len + 1, ch)
 
 
@@ -71,13 +72,18 @@ def str_concat(a, b):
     if not is_sym(a.len):
         ch = list(a.ch[:a.len]) + list(b.ch)
         return S(a.len + b.len, ch)
-    cap = len(a.ch) + len(b.ch); ch = []
+    # the characters beyond a string's length are dead: cut both arrays at the upper bound of the length, and only consider the
+    # values the length of a can take
+    la, ha = int_bounds(a.len); la = max(la, 0); ha = min(ha, len(a.ch))
+    lb, hb = int_bounds(b.len); hb = min(hb, len(b.ch))
+    ach = a.ch[:ha]; bch = b.ch[:hb]
+    cap = len(ach) + len(bch); ch = []
     for k in range(cap):
-        cell = a.ch[k] if k < len(a.ch) else 0
+        cell = ach[k] if k < len(ach) else 0
         # position k holds b[j] when a.len + j == k
-        for j in range(len(b.ch)):
-            if k - j < 0 or k - j > len(a.ch): continue
-            cell = zite(a.len == k - j, b.ch[j], cell)
+        for j in range(len(bch)):
+            if k - j < la or k - j > ha: continue
+            cell = zite(a.len == k - j, bch[j], cell)
         ch.append(cell)
     return S(a.len + b.len, ch)
 
